@@ -1,4 +1,5 @@
 """Triage demonstrations for the C19 findings (run with /venv/bin/python against
+import sys, os; sys.path.insert(0, os.getcwd())
 the built package; NOT part of any registered check)."""
 import numpy as np, traceback
 from compmech.panel import Panel
